@@ -22,29 +22,35 @@
      "traj"  [hdr, hb, lens, ms, xs, r, b] one pack(): hdr = number of header bytes (0 start / 3
                                            segment), expected header parameters, coordinates
      "rgb"   trace fields ch, I, o1, o2 ; events [lvl, r, b]  one level of a sweep
-     "range" [data, o]   "lh" [data, o]                                                      *)
+     "range" [data, o]   "lh" [data, o]
+     "stream" [t, data, o, late]          one packet of a stream received by ONE Localization
+                                          object: t = "lh" | "range", o as above (seen at
+                                          delivery), late = the same delivered object read after
+                                          the whole stream was received (at most 64 per trace)   *)
 EXTENDS Integers, Sequences, FiniteSets, TLC, Json, IOUtils, CodecsNum
 
 Traces == JsonDeserialize(IOEnv.TRACE_FILE)
 
 CONSTANT Bug                       \* which design-spec variant the conformance half uses ("none")
 VARIABLES tid, l, prevF, nbad, bad, badAt, nconf, confAt, ndrift,
-          kind, args, out, prev, phase          \* design-spec variables (unused: pure functions)
+          kind, args, out, prev, phase, heap, kept    \* design-spec variables (unused: pure functions)
 
 Kinds == {}  HiBytes == {}  K == 0  MmCoarse == {}  DdCoarse == {}  MmShift == 0  DdShift == 0
 RgbI == {}  RgbOthers == {}  F32s == <<>>  LhBases == 0  LhPos == {}  OffHi == {}
+StreamLen == 0  StreamBases == 0  StreamPos == {}  StreamOffHi == {}
 C == INSTANCE Codecs
 P == INSTANCE CodecsProps
 
 T == Traces[tid]
 Ev == T.ev[l]
 tvars == <<tid, l, prevF, nbad, bad, badAt, nconf, confAt, ndrift>>
-specvars == <<kind, args, out, prev, phase>>
+specvars == <<kind, args, out, prev, phase, heap, kept>>
 
 Init == /\ tid \in 1..Len(Traces)
         /\ l = 1 /\ prevF = <<>>
         /\ nbad = 0 /\ bad = "ok" /\ badAt = 0 /\ nconf = 0 /\ confAt = 0 /\ ndrift = 0
         /\ kind = "none" /\ args = <<>> /\ out = <<>> /\ prev = <<>> /\ phase = "kind"
+        /\ heap = <<>> /\ kept = <<>>
 
 RgbNow == P!RgbFields(Ev.b[1], Ev.b[2])
 RgbIn == C!RgbArgs(T.ch, Ev.lvl, T.o1, T.o2)
@@ -58,6 +64,8 @@ Clause ==
                              ELSE P!RgbStepClause(T.ch, Ev.lvl, T.I, prevF, RgbNow)
       [] T.kind = "range" -> P!RangeClause(Ev.data, Ev.o)
       [] T.kind = "lh"    -> P!LhClause(Ev.data, Ev.o)
+      [] T.kind = "stream" -> IF Ev.t = "lh" THEN P!LhKeptClause(Ev.data, Ev.o, Ev.late)
+                              ELSE P!RangeKeptClause(Ev.data, Ev.o, Ev.late)
 
 \* ---- conformance: the design spec computes the same output
 SameNum(a, b) == /\ a.c = b.c
@@ -81,6 +89,15 @@ Conforms ==
                              Ev.o.called /\ Ev.o.ids = r.ids /\ SameNums(r.vals, Ev.o.vals)
       [] T.kind = "lh"    -> LET r == C!ImplLh(Ev.data) IN
                              Ev.o.called /\ Ev.o.bs = r.bs /\ SameNums(r.x, Ev.o.x) /\ SameNums(r.y, Ev.o.y)
+      \* a packet of a stream: the design spec hands out a fresh object per packet (Receive), so
+      \* what was seen at delivery and what is read later are both the decoder's output
+      [] T.kind = "stream" -> IF Ev.t = "lh"
+                              THEN LET r == C!ImplLh(Ev.data)
+                                       same(o) == o.called /\ o.bs = r.bs /\ SameNums(r.x, o.x) /\ SameNums(r.y, o.y)
+                                   IN same(Ev.o) /\ same(Ev.late)
+                              ELSE LET r == C!ImplRange(Ev.data)
+                                       same(o) == o.called /\ o.ids = r.ids /\ SameNums(r.vals, o.vals)
+                                   IN same(Ev.o) /\ same(Ev.late)
 
 Step == /\ l <= Len(T.ev)
         /\ l' = l + 1 /\ UNCHANGED tid
